@@ -144,7 +144,8 @@ def pipeline_case(rng, quick, micro=False):
         reads += cluster
     if not loads:
         loads.append(list(ann))
-    return {"chr": "chr1", "d": d, "abs_d": rng.choice([20, 20, 1, 5]), "default_group": "NA", "loads": loads, "reads": reads}
+    return {"chr": "chr1", "d": d, "abs_d": rng.choice([20, 20, 1, 5]), "default_group": "NA", "loads": loads, "reads": reads,
+            "annotation": ann}
 
 
 def profile_cases(rng, quick):
